@@ -33,6 +33,12 @@ pub const SIGNALS: &[(Signal, i32)] = &[
 	(Signal::Custom(28), 28),
 	(Signal::Custom(6), 6),
 	(Signal::Custom(19), 19),
+	// indices 10.. : numbers nix cannot represent. Which signal (if any) is delivered for them is
+	// not settled by the properties (-1 = unasserted); only C06 generates them, with a child that
+	// ignores signals, to check that the rest of the graceful-stop contract still holds.
+	(Signal::Custom(0), -1),
+	(Signal::Custom(40), -1),
+	(Signal::Custom(999), -1),
 ];
 // Numbers nix cannot represent (0, real-time signals, out of range) are left out of the domain:
 // the docs say they are "ignored", the code falls back to SIGTERM; the properties do not settle it.
@@ -65,6 +71,9 @@ pub enum Op {
 	UnsetErrHandler,
 	/// drop the driver's handle to the job (last handle)
 	DropHandle,
+	/// `Job::control(Control::ContinueTryGracefulRestart)`: the public escape hatch, sending the
+	/// control the grace timer normally produces
+	RawContinue,
 }
 
 impl Op {
@@ -91,6 +100,7 @@ impl Op {
 			Op::SetErrHandler => "set_error_handler",
 			Op::UnsetErrHandler => "unset_error_handler",
 			Op::DropHandle => "drop_handle",
+			Op::RawContinue => "control(ContinueTryGracefulRestart)",
 		}
 	}
 }
@@ -223,6 +233,7 @@ fn send(job: &Job, op: &Op, shared: &Arc<Shared>, world: &World, step: usize) ->
 		Op::SetErrHandler => job.set_error_handler(world.error_handler()),
 		Op::UnsetErrHandler => job.unset_error_handler(),
 		Op::DropHandle => unreachable!(),
+		Op::RawContinue => job.control(watchexec_supervisor::job::Control::ContinueTryGracefulRestart),
 	}
 }
 
